@@ -743,5 +743,7 @@ def check(run):
 
 def replay(run, payload):
     run.lean()
-    results = core.pmap(MOD, [{'cases': [payload['params']]}], workers=1)
+    # two chunks / two workers: core.pmap runs a single chunk in-process, where core._worker redirects sys.stdout to
+    # /dev/null and the verdict lines of finish() would be lost
+    results = core.pmap(MOD, [{'cases': [payload['params']]}, {'cases': []}], workers=2)
     run.absorb('replay', results)
